@@ -8,6 +8,7 @@ import pandas as pd
 import pandapipes as ppipes
 from pandapower.auxiliary import pandapowerNet
 from pandapipes.control.run_control import prepare_run_ctrl as prepare_run_ctrl_ppipes
+from pandapipes.pf.pipeflow_setup import PipeflowNotConverged
 from pandapower.control.run_control import prepare_run_ctrl as prepare_run_ctrl_pp, \
     net_initialization, get_recycle, control_initialization, control_finalization, \
     _evaluate_net as _evaluate_net, control_implementation, get_controller_order, \
@@ -290,7 +291,7 @@ def prepare_run_ctrl(multinet, ctrl_variables=None, **kwargs):
     else:
         ctrl_variables['check_each_level'] = True
 
-    ctrl_variables['errors'] = (NetCalculationNotConverged,)
+    ctrl_variables['errors'] = (NetCalculationNotConverged, PipeflowNotConverged)
 
     ctrl_variables['level'], ctrl_variables['controller_order'] = \
         get_controller_order_multinet(multinet)
